@@ -1,7 +1,5 @@
-import CookModel.Driver.Num
+import CookModel.Driver.All
 open Cook Driver
-
-def handlers : List (List String → Option String) := [handleNum]
 
 def dispatch (line : String) : String :=
   let toks := (line.trimAscii.toString.splitOn " ").filter (· ≠ "")
